@@ -11,8 +11,8 @@ Open Scope list_scope.
 (* a selection with what the sanitizer reads: alias, name, named type of the field definition, number of directives;
    for a fragment its type condition and the name of the type it is spread in (ObjectDefinition) *)
 Inductive ssel :=
-| SField (alias name ty : string) (dirs : nat) (sub : list ssel)
-| SInline (cond odef : string) (sub : list ssel).
+| SanField (alias name ty : string) (dirs : nat) (sub : list ssel)
+| SanFrag (cond odef : string) (sub : list ssel).
 
 Inductive tkind := KIface | KUnion | KOther.
 Record sschema := mkSS {
@@ -39,13 +39,13 @@ Definition path_key (ip : list string) : string := String.concat "." ip.
 (* isContainsField: at this level or inside fragments, at any depth of fragments *)
 Fixpoint contains_field (n : string) (s : ssel) {struct s} : bool :=
   match s with
-  | SField _ n' _ _ _ => n' =? n
-  | SInline _ _ sub => (fix any (l : list ssel) := match l with [] => false | x :: r => contains_field n x || any r end) sub
+  | SanField _ n' _ _ _ => n' =? n
+  | SanFrag _ _ sub => (fix any (l : list ssel) := match l with [] => false | x :: r => contains_field n x || any r end) sub
   end.
 Definition contains (ss : list ssel) (n : string) : bool := existsb (contains_field n) ss.
 
-Definition id_helper : ssel := SField "" "id" "id" 0 [].
-Definition typename_helper : ssel := SField "" "__typename" "String" 0 [].
+Definition id_helper : ssel := SanField "" "id" "id" 0 [].
+Definition typename_helper : ssel := SanField "" "__typename" "String" 0 [].
 
 (* addScrubFieldsToSelectionSet(ctx, selectionSet, typename) -> selection set, names of the fields it added *)
 Definition add_scrub_fields (tm : tmap) (sc : sschema) (ss : list ssel) (t : string) : list ssel * list string :=
@@ -64,7 +64,7 @@ Definition add_scrub_fields (tm : tmap) (sc : sschema) (ss : list ssel) (t : str
   else (id_helper :: ss1, added1 ++ ["id"]).
 
 (* addSelectionSetToSanitizedResult: a field whose response key (Alias) is already among the fields of s is dropped *)
-Definition alias_of (s : ssel) : option string := match s with SField a _ _ _ _ => Some a | SInline _ _ _ => None end.
+Definition alias_of (s : ssel) : option string := match s with SanField a _ _ _ _ => Some a | SanFrag _ _ _ => None end.
 Definition add_to_result (s : list ssel) (new : list ssel) : list ssel :=
   s ++ filter (fun x => match alias_of x with
                         | None => true
@@ -75,17 +75,17 @@ Definition add_to_result (s : list ssel) (new : list ssel) : list ssel :=
 Definition sanitize_union (children : list ssel) (cond odef : string) : list ssel :=
   let inner := fold_left (fun acc sel =>
                             match sel with
-                            | SInline c o sub => if (o =? odef) && (c =? cond) then add_to_result acc sub else add_to_result acc [sel]
+                            | SanFrag c o sub => if (o =? odef) && (c =? cond) then add_to_result acc sub else add_to_result acc [sel]
                             | _ => add_to_result acc [sel]
                             end) children [] in
-  if cond =? odef then inner else [SInline cond odef inner].
+  if cond =? odef then inner else [SanFrag cond odef inner].
 
 (* sanitizeInterfaceInlineFragment: a fragment on one of the interface's possible types stays; any other one is copied
    into one fragment per possible type — each copy holding what the selection set held when it was made *)
 Definition sanitize_iface (sc : sschema) (children : list ssel) (cond odef : string) : list ssel :=
   let pts := possible_of sc odef in
-  if smem cond pts then [SInline cond odef children]
-  else fold_left (fun acc pt => add_to_result acc [SInline pt pt acc]) pts children.
+  if smem cond pts then [SanFrag cond odef children]
+  else fold_left (fun acc pt => add_to_result acc [SanFrag pt pt acc]) pts children.
 
 (* setMissingScrubFieldsForFieldSelectionSet *)
 Definition set_missing (sc : sschema) (ip : list string) (alias ty : string) (s : scrub) (added : list string) : scrub :=
@@ -100,16 +100,16 @@ Definition set_missing (sc : sschema) (ip : list string) (alias ty : string) (s 
 Definition unset_level (ss : list ssel) (ip : list string) (s : scrub) : scrub :=
   fold_left (fun acc x =>
                match x with
-               | SField a n _ d _ =>
+               | SanField a n _ d _ =>
                    if (a =? n) && Nat.eqb d 0 && ((n =? "id") || (n =? "__typename")) then sc_unset acc (path_key ip) n else acc
-               | SInline _ _ _ => acc
+               | SanFrag _ _ _ => acc
                end) ss s.
 
 (* one selection of sanitizeSelectionSet's loop: (result so far, scrub fields so far) -> the same after it *)
 Fixpoint san_sel (tm : tmap) (sc : sschema) (ip : list string) (s : ssel) (acc : list ssel * scrub) {struct s} : list ssel * scrub :=
   let '(result, scr) := acc in
   match s with
-  | SField a n ty d sub =>
+  | SanField a n ty d sub =>
       match sub with
       | [] => (add_to_result result [s], scr)
       | _ =>
@@ -120,9 +120,9 @@ Fixpoint san_sel (tm : tmap) (sc : sschema) (ip : list string) (s : ssel) (acc :
           let scr1 := sc_merge scr sf in
           let '(child', added) := add_scrub_fields tm sc child ty in
           let scr2 := set_missing sc ip a ty scr1 added in
-          (add_to_result result [SField a n ty d child'], scr2)
+          (add_to_result result [SanField a n ty d child'], scr2)
       end
-  | SInline c o sub =>
+  | SanFrag c o sub =>
       let '(child, sf) :=
         (fix go (l : list ssel) (acc' : list ssel * scrub) := match l with [] => acc' | x :: r => go r (san_sel tm sc ip x acc') end)
           sub ([], []) in
